@@ -31,3 +31,17 @@ Fixpoint mismatches_from (i : N) (l : list (string * string)) : list (N * string
       else (i, model) :: mismatches_from (N.succ i) r
   end.
 Definition mismatches := mismatches_from 0%N.
+
+(* hex rendering of byte strings (list ascii) *)
+Definition hexdigit (n : nat) : ascii :=
+  match n with
+  | 0 => "0" | 1 => "1" | 2 => "2" | 3 => "3" | 4 => "4" | 5 => "5" | 6 => "6" | 7 => "7"
+  | 8 => "8" | 9 => "9" | 10 => "a" | 11 => "b" | 12 => "c" | 13 => "d" | 14 => "e" | _ => "f"
+  end%char.
+
+Fixpoint hex_of_bytes (b : list ascii) : string :=
+  match b with
+  | [] => EmptyString
+  | c :: r => let n := nat_of_ascii c in
+              String (hexdigit (Nat.div n 16)) (String (hexdigit (Nat.modulo n 16)) (hex_of_bytes r))
+  end.
